@@ -293,6 +293,12 @@ func (maps *trackedMaps) processUnfiltered(ctx context.Context, ef *Filter, filt
 					return fmt.Errorf("%s: unable to create new tracked maps for slice: %w", op, err)
 				}
 				f := field
+				if !f.CanSet() {
+					// a struct stored by value in the map is not settable: filter an
+					// addressable copy, which is stored back in the map below
+					f = reflect.New(ftype).Elem()
+					f.Set(field)
+				}
 				if err := ef.filterField(ctx, f, filterOverrides, newMaps, opt...); err != nil {
 					return fmt.Errorf("%s: unable to filter struct: %w", op, err)
 				}
@@ -300,7 +306,7 @@ func (maps *trackedMaps) processUnfiltered(ctx context.Context, ef *Filter, filt
 					return fmt.Errorf("%s: unable to process maps found in struct: %w", op, err)
 				}
 				if fPtr {
-					f = field.Addr()
+					f = f.Addr()
 				}
 				v.SetMapIndex(key, f)
 
